@@ -16,7 +16,7 @@ claimed={c['id'] for c in src['checks']}
 na=[{"property_id":k,"reason":v} for k,v in src['not_applicable'].items() if k not in claimed]
 m={"version":1,
  "setup_cmd":"cd /verif/govc && GOFLAGS=-mod=mod GOPROXY=off GOSUMDB=off GOTOOLCHAIN=local GOWORK=off go build -o ../bin/govc .",
- "hooks":{"guard":"verif","enable":"go build/test -tags verif (contract files zz_contracts_verif.go are comment-only; checks load packages with -tags=verif)","baseline_off_cmd":base['cmd'],"source_commits":hook,"add_only":True},
+ "hooks":{"guard":"verif","enable":"go build/test -tags verif (contract files zz_contracts*_verif.go are comment-only, zz_roundtrip_verif.go holds lemma functions, kvstore/zz_hook_verif.go is the Enqueue yield point used by the C08 replay; checks load packages with -tags=verif)","baseline_off_cmd":base['cmd'],"source_commits":hook,"add_only":True},
  "engines":[{"name":"govc","path":"/verif/govc","serves_properties":sorted(claimed),"kind_free_text":"contract-based deductive verifier for Go written for this task: go/ssa -> weakest-precondition style VCs (SMT-LIB), z3/cvc5 back ends, overlay replay of counterexamples"}],
  "checks":checks,"not_applicable":na,"notes":src.get('notes','')}
 json.dump(m,open('/verif/MANIFEST.json','w'),indent=1)
